@@ -29,7 +29,7 @@ s = s[:i] + t74 + '\n' + s[j:]
 rows = []
 for d in sorted(glob.glob(os.path.join(here, 'seeded', '*', 'meta.json'))):
     m = json.load(open(d))
-    rows.append((m['id'], m['breaks_property'], ', '.join(m['caught_by_quick_checks']) + (' (no longer a defect, see meta.json)' if m.get('neutralised_by') else ''),
+    rows.append((m['id'], m['breaks_property'], (', '.join(m['caught_by_quick_checks']) or 'none (outside the checked domain, see meta.json)') + (' (no longer a defect, see meta.json)' if m.get('neutralised_by') else ''),
                  ', '.join(m['not_caught_by']) or '—', 'yes' if 'strengthening' in m else ''))
 nstr = sum(1 for r in rows if r[4])
 t75 = '''### 7.5 Seeded changes (independent sub-agents; `/verif/seeded/<id>/`)
@@ -67,11 +67,15 @@ C13 sub-tree listings, C15 results edited by the caller, C16 epoch and future mo
 entries and a save in progress during clean-up, C19 deepest-leaf refactoring targets and pickling of queried trees, C06 numbers from the lexical grammar and a layout-only notion of
 'out of domain', C07 near-miss texts (joined lines, stray keyword), C08 crossed-target rules / tiny alphabets / rule-name styles, C10
 control characters that are no line breaks, C12 identifiers from every corner of PEP 3131, C18 non-caching parses carrying the path
-of a cached file, structured f-strings and size-threshold tokens in every hostile mix.  Round 5 (changes G/H, twelve properties, same instructions) was missed 9 times in 22 at first and added: a sweep over the whole read-only
+of a cached file, structured f-strings and size-threshold tokens in every hostile mix.  Round 5 (changes G/H, twelve properties, same instructions) was missed 19 times in 39 at first and added: a sweep over the whole read-only
 API with option variants (`oracles/readonly.py`) after which the tree must be what it was (C05, C19), keyword look-alikes (NFKC) in every
 hostile mix, C02 prior calls with another start_symbol and a parse aborted by the recursion limit, C13 listings of eval_input trees and
 of modules updated in place (listed last before the next update), C16 FileIO objects kept by the caller and a path spelled through a
-symlinked directory, C20 positions beyond a line's end and multi-line strings with separators.  One earlier
+symlinked directory, C20 positions beyond a line's end and multi-line strings with separators, C04 block-continuing edits and decorated async definitions,
+C06/C10/C12 continued strings that begin with the other quote and f-string texts compared piece by piece, C07 re-indented lines, C08 escaped
+terminal spellings and a second token namespace (which exposed and led to the repair of a genuine generator defect), C12 special names in
+reading positions, C17 another interpreter's version directory, C18 strict eval_input calls among the concurrent ones.  One change of this
+round (C10-H) is recorded as not caught: it only shows on texts CPython tokenizes but cannot compile, outside the domain C10 judges (7.2e).  One earlier
 change (C19-A) stopped being a defect after a later repair of `_create_params` and is kept for the record only.  Sub-agents also reported defects of the *unchanged* tree that their demonstrations had to
 avoid (list target in a comprehension with a walrus -> UnboundLocalError; f-string text equal to a keyword feeding syntax rules and
 is_generator(); comma lost when `def f(*,)` is rebuilt from its dump; a damaged pickle that still unpickles to a wrong tree -- the
